@@ -157,3 +157,184 @@ def reaching_defs(func):
 
     sin, _ = cfg.forward(init, transfer, join)
     return cfg, {k: dict(v) for k, v in sin.items()}
+
+
+def _header_exprs(st):
+    """Expressions evaluated by the CFG node that stands for statement `st`."""
+    if isinstance(st, ast.If) or isinstance(st, ast.While):
+        return [st.test]
+    if isinstance(st, (ast.For, ast.AsyncFor)):
+        return [st.iter]
+    if isinstance(st, (ast.With, ast.AsyncWith)):
+        return [it.context_expr for it in st.items]
+    if isinstance(st, ast.Try) or (hasattr(ast, 'TryStar') and isinstance(st, ast.TryStar)):
+        return []
+    if hasattr(ast, 'Match') and isinstance(st, ast.Match):
+        return [st.subject]
+    if isinstance(st, (ast.FunctionDef, ast.AsyncFunctionDef, ast.ClassDef)):
+        return list(st.decorator_list)
+    if isinstance(st, ast.ExceptHandler):
+        return [st.type] if st.type is not None else []
+    return [st]
+
+
+def _loads(expr):
+    """Names loaded when `expr` is evaluated now (nested def/lambda bodies run later; names bound
+    by a comprehension or lambda inside the expression are its own)."""
+    own = set()
+    out = []
+
+    def walk(n):
+        if isinstance(n, (ast.FunctionDef, ast.AsyncFunctionDef, ast.Lambda, ast.ClassDef)):
+            return
+        if isinstance(n, (ast.ListComp, ast.SetComp, ast.DictComp, ast.GeneratorExp)):
+            for g in n.generators:
+                for t in ast.walk(g.target):
+                    if isinstance(t, ast.Name):
+                        own.add(t.id)
+        if isinstance(n, ast.Name) and isinstance(n.ctx, ast.Load):
+            out.append(n)
+        for ch in ast.iter_child_nodes(n):
+            walk(ch)
+
+    walk(expr)
+    return [n for n in out if n.id not in own]
+
+
+def possibly_undefined(func):
+    """Definite-assignment analysis on the statement CFG: yields (name, stmt, Name node) for every
+    read of a local name that some path from the function entry reaches without binding it.
+    Path-insensitive (correlated guards are reported): callers confirm instances."""
+    from .cfg import CFG
+    from .core import assigned_targets, params
+    cfg = CFG(func)
+    bound_here = {}
+    escaping = set()
+    for n in ast.walk(func):
+        if isinstance(n, (ast.Global, ast.Nonlocal)):
+            escaping.update(n.names)
+    localnames = set()
+    for nd in cfg.nodes:
+        st = nd.stmt
+        if st is None:
+            continue
+        names = set()
+        for t in assigned_targets(st):
+            if isinstance(t, ast.Name):
+                names.add(t.id)
+        if isinstance(st, (ast.Import, ast.ImportFrom)):
+            for a in st.names:
+                names.add((a.asname or a.name).split('.')[0])
+        if isinstance(st, (ast.FunctionDef, ast.AsyncFunctionDef, ast.ClassDef)):
+            names.add(st.name)
+        if isinstance(st, ast.ExceptHandler) and st.name:
+            names.add(st.name)
+        for e in _header_exprs(st):
+            for w in ast.walk(e) if not isinstance(e, ast.stmt) or True else ():
+                if isinstance(w, ast.NamedExpr) and isinstance(w.target, ast.Name):
+                    names.add(w.target.id)
+        bound_here[nd.id] = names
+        localnames |= names
+    # handler names / names bound in constructs the CFG folds into one node
+    for n in ast.walk(func):
+        if isinstance(n, ast.ExceptHandler) and n.name:
+            escaping.add(n.name)
+    localnames -= escaping
+    a = func.args
+    localnames -= {x.arg for x in a.posonlyargs + a.args + a.kwonlyargs}
+    localnames -= {x.arg for x in (a.vararg, a.kwarg) if x is not None}
+    init = frozenset(localnames)       # set of names that MAY be unbound
+
+    def transfer(nd, st):
+        b = bound_here.get(nd.id)
+        if not b:
+            return st
+        if isinstance(nd.stmt, ast.Delete):
+            return st
+        return st - b
+
+    sin, _ = cfg.forward(init, transfer, lambda a, b: a | b)
+    binders = {}
+    for nd in cfg.nodes:
+        for nm in bound_here.get(nd.id, ()):
+            if nd.stmt not in binders.setdefault(nm, []):
+                binders[nm].append(nd.stmt)
+    out = []
+    for nd in cfg.nodes:
+        st = nd.stmt
+        if st is None or nd.id not in sin:
+            continue
+        maybe = sin[nd.id]
+        if not maybe:
+            continue
+        for e in _header_exprs(st):
+            cands = []
+            if isinstance(e, ast.AugAssign) and isinstance(e.target, ast.Name) and \
+                    e.target.id in maybe:
+                cands.append(e.target)
+            cands += [nm for nm in _loads(e) if nm.id in maybe]
+            for nm in cands:
+                if not _guarded(func, nm.id, st, binders.get(nm.id, [])):
+                    out.append((nm.id, st, nm))
+    return out
+
+
+def _conds(func, st):
+    """Chain of (test text, polarity) of the `if`s enclosing st, outermost first, and the loops."""
+    from .core import parent
+    chain = []
+    loops = []
+    cur = st
+    while cur is not func and cur is not None:
+        p = parent(cur)
+        if isinstance(p, ast.If):
+            if cur in p.body:
+                chain.append((ast.unparse(p.test), True, p))
+            elif cur in p.orelse:
+                chain.append((ast.unparse(p.test), False, p))
+        if isinstance(p, (ast.For, ast.AsyncFor, ast.While)) and cur in p.body:
+            loops.append(p)
+        cur = p
+    return chain[::-1], loops
+
+
+def _guarded(func, name, use, binders):
+    """Idioms under which a path-insensitive 'maybe unbound' is infeasible (each one makes the
+    analysis report LESS, never more):
+      * the use sits under the same guard(s) (same test text, same polarity, test names not rebound
+        in between) as a binding that precedes it;
+      * a binding inside an earlier loop that does not contain the use (the repository's loops over
+        sites / sweeps run at least once);
+      * both `name` and a flag are bound together (`x = None` default and `if x is not None`) is
+        already handled by the CFG."""
+    from .core import assigned_targets
+    cu, lu = _conds(func, use)
+    cu_set = {(t, pol) for t, pol, _ in cu}
+    for t, pol, node in cu:            # `if A and B:` implies A and implies B
+        if pol and isinstance(node.test, ast.BoolOp) and isinstance(node.test.op, ast.And):
+            cu_set |= {(ast.unparse(v), True) for v in node.test.values}
+        if not pol and isinstance(node.test, ast.BoolOp) and isinstance(node.test.op, ast.Or):
+            cu_set |= {(ast.unparse(v), False) for v in node.test.values}
+    for b in binders:
+        if getattr(b, 'lineno', 0) >= getattr(use, 'lineno', 0) and b is not use:
+            continue
+        cb, lb = _conds(func, b)
+        if any(l not in lu for l in lb):
+            return True
+        extra = [(t, pol, node) for t, pol, node in cb if node not in [n for _, _, n in cu]]
+        if not extra:
+            continue
+        if all((t, pol) in cu_set for t, pol, _ in extra):
+            # names of the tests must not be rebound between binding and use
+            tn = set()
+            for t, _, node in extra:
+                tn |= {n.id for n in ast.walk(node.test) if isinstance(n, ast.Name)}
+            rebound = False
+            for x in ast.walk(func):
+                if isinstance(x, ast.stmt) and b.lineno < getattr(x, 'lineno', 0) < use.lineno:
+                    for tg in assigned_targets(x):
+                        if isinstance(tg, ast.Name) and tg.id in tn:
+                            rebound = True
+            if not rebound:
+                return True
+    return False
